@@ -69,6 +69,21 @@ def _attack(name):
     return r, cex
 
 
+def _mc_ref():
+    """Extension: the moving receiver reference (Trajectory!RefStep) on the design."""
+    return core.tlc_ok("mc/MC_TrajectoryRef", cfg="mc/MC_TrajectoryRef.cfg", workers=3, timeout=1500, xmx="3g")
+
+
+def _attack_ref():
+    """Low flight allowed 61 NM from the airfield: TLC must refute SafeAllCex (and only that invariant)."""
+    r = core.tlc("mc/MC_TrajectoryRef", cfg="mc/MC_TrajectoryRef_attack_farlow.cfg", workers=1, timeout=1500, xmx="3g")
+    cex = [v for v in r.printed_json() if isinstance(v, dict) and "cex" in v]
+    if r.ok or "Invariant SafeAllCex is violated" not in r.out or not cex:
+        raise core.ToolError("attack configuration farlow (moving reference) was not refuted by TLC, or another "
+                             f"invariant failed first\n{r.out[-1500:]}")
+    return r, cex
+
+
 def _hists(cfg, simulate=None, seed=None):
     """Abstract histories printed by MC_Trajectory's EmitHist."""
     r = core.tlc("mc/MC_Trajectory", cfg=cfg, workers=1, timeout=3000, xmx="3g",
@@ -110,13 +125,15 @@ def _replay_validate(run, scen_path, name, with_asis=True):
             why[int(m.group(1))] = m.group(2)
     selfcheck = [int(x) for x in re.findall(r'<<"SELFCHECK", (\d+)>>', r.out)]
     mism = [int(x) for x in re.findall(r'<<"DESIGN-MISMATCH", (\d+)>>', r.out)]
+    refrule = len(re.findall(r'<<"REF-RULE", (\d+)>>', r.out))
     mism_asis = None
     if mism and with_asis:
         _, r2 = core.validate("trace/Trace_Trajectory", trace, n_events=stats["events"], timeout=3000,
                               xmx="3g", cfg="trace/Trace_Trajectory_asis.cfg")
         mism_asis = len(re.findall(r'<<"DESIGN-MISMATCH", (\d+)>>', r2.out))
     res = {"trace": trace, "scen": scen_path, "stats": stats, "why": why, "selfcheck": selfcheck,
-           "mismatch": mism, "mismatch_asis": mism_asis, "states": r.distinct, "generated": r.generated}
+           "mismatch": mism, "mismatch_asis": mism_asis, "refrule": refrule,
+           "states": r.distinct, "generated": r.generated}
     return res
 
 
@@ -396,6 +413,8 @@ def check(run):
         jobs["H:sim4"] = ex.submit(_hists, "gen/Gen_TrajectoryHistSim.cfg", 3000 if thorough else 120, seed)
         jobs["H:abs2"] = ex.submit(_hists, "gen/Gen_TrajectoryHist2.cfg")
         jobs["M:deep_random_walks"] = ex.submit(_deep, 8000 if thorough else 300, seed)
+        jobs["M:moving_reference"] = ex.submit(_mc_ref)
+        jobs["R:farlow"] = ex.submit(_attack_ref)
         for a in ATTACKS:
             jobs["A:" + a] = ex.submit(_attack, a)
         done = {k: f.result() for k, f in jobs.items()}
@@ -405,6 +424,8 @@ def check(run):
         if k.startswith("M:"):
             run.add_tlc(v)
             mc_cov[k[2:]] = {"distinct": v.distinct, "generated": v.generated, "wall_s": round(v.wall, 1)}
+    r_far, cex_far = done["R:farlow"]
+    run.add_tlc(r_far)
     hists = []
     attack_cov = {}
     for a in ATTACKS:
@@ -486,6 +507,7 @@ def check(run):
             else:
                 tot[k] += v
     mism = sum(len(r["mismatch"]) for r in results)
+    refrule = sum(r.get("refrule", 0) for r in results)
     mism_asis = sum(r["mismatch_asis"] or 0 for r in results)
     samples = []
     for res in results[:1] + results[-1:]:
@@ -530,6 +552,26 @@ def check(run):
         "rejected_scenarios_end_to_end": n_rej_e2e,
         "model_checking": mc_cov,
         "attacks": attack_cov,
+        "moving_reference": {
+            "what": "extension beyond the fixed-reference property: decode_position's update_reference callback (jet1090 "
+                    "--update-position: altitude known and < 5000 ft; always on in decode1090 below 1000 ft), Trajectory!RefStep",
+            "model_checking": "MC_TrajectoryRef: RefProvenance (the reference is the initial one or the true position of a low "
+                              "airborne report), SafeM / SafeAll / NeverTainted (never wrong while low flight and surface "
+                              "traffic stay within 100 u = 19 NM of the airfield), AirOnlyIgnoresRef; 2 aircraft, 3 reports, "
+                              "gaps {1,181} s",
+            "attack_farlow": {"change": "low flight allowed 320 u = 61 NM from the airfield",
+                              "refuted_after_states": r_far.distinct,
+                              "counterexample": [[h["kind"], "even" if h["par"] == 0 else "odd", h["ts"], h["lat"], h["ac"],
+                                                  "low" if h["low"] else ""] for h in cex_far[0]["cex"]],
+                              "meaning": "a documented hazard of the option, not a defect: a far low aircraft drags the "
+                                         "reference off and a surface report of another aircraft lands one zone away"},
+            "replayed": "every scenario is decoded a fifth time with the callback installed (threshold 5000 ft; a share of "
+                        "the generated altitudes is below it); clause wrong_position_moving_reference is a verdict (never "
+                        "wrong while the aircraft's surface reports were delivered within 40 NM of the reference in force); "
+                        "the reference logged after every call is compared bit by bit with RefStep (informative)",
+            "reference_moves_observed": tot["ref_moves"],
+            "surface_reports_answered_under_a_moved_reference": tot["mov_surf_by_moved_ref"],
+            "ref_rule_mismatches": refrule},
         "design_conformance": {
             "mismatches_with_proposed_surface_age_limit": mism,
             "mismatches_with_constants_of_tree_as_found": mism_asis if mism else 0,
